@@ -283,4 +283,49 @@ theorem updates_le_last (t0 : Table) (hwf : t0.WF) (vs : List Nat) (v : Nat)
   simp only [List.foldl_cons, List.foldl_nil, settings_size, peerTableSize] at this
   omega
 
+/-! ### h2_parse_headers_frame(): a refused field does not stop the decoder -/
+
+theorem decodeBlockAux_acc (cap : Nat) : ∀ (fuel : Nat) (d : Dec) (bs : Bytes) (acc acc' : List Field),
+    (decodeBlockAux cap fuel d bs acc).dec = (decodeBlockAux cap fuel d bs acc').dec ∧
+    (decodeBlockAux cap fuel d bs acc).err = (decodeBlockAux cap fuel d bs acc').err := by
+  intro fuel
+  induction fuel with
+  | zero => intro d bs acc acc'; exact ⟨rfl, rfl⟩
+  | succ k ih =>
+    intro d bs acc acc'
+    rw [decodeBlockAux_succ, decodeBlockAux_succ]
+    split
+    · exact ⟨rfl, rfl⟩
+    · split
+      · exact ⟨rfl, rfl⟩
+      · exact ih _ _ _ _
+      · exact ih _ _ _ _
+
+theorem parseFrameAux_state (cap : Nat) (accept : Field → Bool) :
+    ∀ (fuel : Nat) (d : Dec) (bs : Bytes) (acc acc' : List Field),
+    (parseFrameAux cap accept fuel d bs acc).dec = (decodeBlockAux cap fuel d bs acc').dec ∧
+    (parseFrameAux cap accept fuel d bs acc).err = (decodeBlockAux cap fuel d bs acc').err := by
+  intro fuel
+  induction fuel with
+  | zero => intro d bs acc acc'; exact ⟨rfl, rfl⟩
+  | succ k ih =>
+    intro d bs acc acc'
+    rw [decodeBlockAux_succ]
+    unfold parseFrameAux
+    by_cases hb : bs = []
+    · simp only [hb, if_true]; exact ⟨trivial, trivial⟩
+    · simp only [hb, if_false]
+      cases h : decodeItem cap d bs with
+      | err e d' => exact ⟨rfl, rfl⟩
+      | upd rest d' => exact ih _ _ _ _
+      | fld f rest d' =>
+        by_cases ha : accept f = true
+        · simp only [ha, if_true]; exact ih _ _ _ _
+        · simp only [ha]; exact decodeBlockAux_acc cap k _ _ _ _
+
+theorem parseFrame_state (cap : Nat) (accept : Field → Bool) (d : Dec) (bs : Bytes) :
+    (parseFrame cap accept d bs).dec = (decodeBlock cap d bs).dec ∧
+    (parseFrame cap accept d bs).err = (decodeBlock cap d bs).err :=
+  parseFrameAux_state cap accept _ d bs [] []
+
 end LtVerif.H2Headers
